@@ -25,7 +25,7 @@ def _nontrivial(script, r):
 
 def run(ctx, deep=False):
     thorough = deep or ctx.tier == "thorough"
-    n = 3000 if thorough else 250
+    n = 15000 if thorough else 1000
     ctx.coverage["rule"] = (
         "scripts of the property's quantifier: sends with mixed lifetimes (1 s / 30 s) and clock advances while every "
         "connection attempt is refused, then a connection; run on the real AirTouchSocket (AT4 and AT5 registries) on a "
